@@ -377,6 +377,10 @@ def files_cases(tier):
             if len(sl) == 2 and mode in ("exposure2",) and tier == "quick":
                 continue
             cases.append({"part": "files", "save": sl, "mode": mode})
+    for grid in ([2, 3], [3, 2]):
+        for mode in ("obs_dask", "obs_seq"):
+            for sl in ([["pixel", "npy"]], [["pixel", "npy"], ["image", "fits"]]):
+                cases.append({"part": "files", "save": sl, "mode": mode, "grid": grid})
     for mode in ("exposure1", "obs_seq"):
         cases.append({"part": "files", "save": [["pixel", "npy"], ["image", "fits"]], "mode": mode, "repeat": 3})
         cases.append({"part": "files", "save": [["pixel", "npy"]], "mode": mode, "repeat": 2, "precious": True})
@@ -453,12 +457,19 @@ def run_files_case(case):
                     res = pyxel.run_mode(mk.exposure(times, outputs=outobj), det, pipe, with_inherited_coords=True)
                     expected = {(): _final_buckets()}
                 else:
-                    pipe = mk.pipeline({"photon_collection": [("props.c19_outputs.enc_all", "enc", {"a": 0.0})]})
+                    pipe = mk.pipeline({"photon_collection": [("props.c19_outputs.enc_all", "enc", {"a": 0.0, "b": 0.0})]})
                     if outobj is None:
                         outobj = ObservationOutputs(output_folder=parent, save_data_to_file=_save_list(sl))
                     vals = [1 + seed + rep, 2 + seed + rep, 3 + seed + rep]
-                    obs = Observation(parameters=[ParameterValues(key="pipeline.photon_collection.enc.arguments.a",
-                                                                  values=vals)],
+                    pvs = [ParameterValues(key="pipeline.photon_collection.enc.arguments.a", values=vals)]
+                    grid = None
+                    if case.get("grid"):           # non-square product grid (shorter list first / last)
+                        na, nb = case["grid"]
+                        va, vb = vals[:na], [1, 2, 3][:nb]
+                        pvs = [ParameterValues(key="pipeline.photon_collection.enc.arguments.a", values=va),
+                               ParameterValues(key="pipeline.photon_collection.enc.arguments.b", values=vb)]
+                        grid = [(x, y) for x in va for y in vb]
+                    obs = Observation(parameters=pvs,
                                       outputs=outobj, readout=mk.readout(times), with_dask=(mode == "obs_dask"))
                     if mode == "obs_dask":
                         import dask
@@ -469,6 +480,8 @@ def run_files_case(case):
                     else:
                         res = pyxel.run_mode(obs, det, pipe, with_inherited_coords=True)
                     expected = {(v,): enc_expected(v) for v in vals}
+                    if grid is not None:
+                        expected = {(x, y): enc_expected(float(x) + 1000.0 * float(y)) for x, y in grid}
             except NotImplementedError as e:
                 exc = e
                 unsupported = True
@@ -549,21 +562,21 @@ def run_files_case(case):
             "sets": {"unsupported": [f"{mode.rstrip('12')}:{f}" for _, f in sl] if unsupported and len(sl) == 1 else []}}
 
 
-def enc_all(detector, a=0.0):
-    """probe for the observation cases: every bucket is an injective function of the swept value."""
-    for b, v in enc_expected(a).items():
-        if b == "charge":
+def enc_all(detector, a=0.0, b=0.0):
+    """probe for the observation cases: every bucket is an injective function of the swept value(s)."""
+    for bucket, v in enc_expected(float(a) + 1000.0 * float(b)).items():
+        if bucket == "charge":
             detector.charge.add_charge_array(v)
-        elif b == "image":
+        elif bucket == "image":
             detector.image.array = v
         else:
-            getattr(detector, b).array = v
+            getattr(detector, bucket).array = v
 
 
 def enc_expected(a):
     base = np.arange(6, dtype=float).reshape(2, 3)
     return {"photon": base + 100.0 * float(a), "charge": base + 200.0 * float(a), "pixel": base + 300.0 * float(a),
-            "signal": base + 400.0 * float(a), "image": (base + 10 * float(a)).astype("uint16")}
+            "signal": base + 400.0 * float(a), "image": ((base + 10 * float(a)) % 60000).astype("uint16")}
 
 
 def _final_buckets():
@@ -599,7 +612,8 @@ def _reported(res):
                     ext = str(item.coords[fd].values)
             if ext is None:
                 ext = os.path.splitext(str(item.values))[1][1:]
-            label = tuple(float(item.coords[d].values) if d in item.coords else sel[d] for d in pdims)
+            # labels ordered by dimension NAME (the order of the dimensions in the tree is not part of the contract)
+            label = tuple(float(item.coords[d].values) if d in item.coords else sel[d] for d in sorted(pdims, key=str))
             path = str(item.values)
             out.append({"bucket": bucket, "ext": ext, "label": tuple(int(x) if float(x).is_integer() else x for x in label),
                         "path": path})
